@@ -79,7 +79,10 @@ void EVP_MD_CTX_free(EVP_MD_CTX *ctx)
 	vo_live--;
 }
 
+/* BIO_free: defined in openssl_stubs_jwk.c when the JWK parser is linked */
+#ifndef VO_WITH_JWK
 int BIO_free(BIO *a) { __CPROVER_assert(a == NULL, "M4: BIO_free"); return 0; }
+#endif
 
 static int vo_init(EVP_MD_CTX *ctx, EVP_PKEY_CTX **pctx, const EVP_MD *type, EVP_PKEY *pkey)
 {
